@@ -29,6 +29,9 @@ manifest).
   workloads with compaction, no tombstone GC: every confirmed update is absorbed by the
   recovered state.  For the pinned commit this was false: `compact_get_fault_counterexample`
   (a transient `get` error made the compactor drop and delete a live segment) — fixed defect.
+* `manifest_segments_exist_after_compaction` — also under read corruption (a `get` returning a
+  mangled body once): a skipped segment stays listed and stays in the store;
+  `delete_selected_counterexample` for the variant that deletes what it selected.
 * `failed_flush_keeps_buffer_current`, `no_update_vanishes_current` — the current `flush` puts
   the taken deltas back on every error path; `failed_flush_drops_buffer_counterexample` for the
   pinned commit — fixed defect.
@@ -451,6 +454,50 @@ theorem no_update_vanishes_current (F : Oracle) (rid : Nat) (ops : List Op) :
 /-- the get-fault witness of the pinned commit loses nothing in the current tree -/
 example : OkAnd (recover (run getFaultOracle (Sys.init [] 1) getFaultOps).w.store 1)
     (fun r => Absorbed (c12Delta 107 8 46) (foldState r.updates) ∧ Absorbed (c12Delta 233 9 48) (foldState r.updates)) := by
+  decide
+
+
+/-! ## read faults: the manifest never lists a segment that does not exist -/
+
+/-- **manifest_segments_exist_after_compaction** — every code variant of the modelled compactor,
+    every oracle incl. read corruption (`readCorrupt`: a `get` returns a body no parser accepts
+    while the object at rest is intact), whatever the pass returned: every segment the manifest
+    lists afterwards exists as a complete object (and recovery succeeds).  A segment whose read
+    was mangled is skipped: it stays listed AND stays in the store. -/
+theorem manifest_segments_exist_after_compaction (fl : CompactFlags) (F : Oracle) (cfg : CompactCfg)
+    (sz : Nat) (w : World) (hinv : StoreInv w.store) (rid : Nat) :
+    refsComplete (compactWith fl F cfg sz w).1.store = true ∧
+    ∃ r, recover (compactWith fl F cfg sz w).1.store rid = .ok r :=
+  ⟨refsComplete_of_storeInv (compact_spec fl F cfg sz w hinv).1,
+   recover_ok_of_storeInv (compact_spec fl F cfg sz w hinv).1 rid⟩
+
+/-- the seeded variant (A): the best-effort delete loop runs over the SELECTED segments instead
+    of the ones that were actually read and merged -/
+def compactDeleteSelected (F : Oracle) (cfg : CompactCfg) (sz : Nat) (w : World) : World × CompactOut :=
+  let r := compact F cfg sz w
+  match r.2 with
+  | .compacted _ _ _ _ | .emptied _ _ =>
+    (deleteAll F r.1 (selectSegments cfg (manifestOf w.store 0)), r.2)
+  | _ => r
+
+/-- three flushed segments; the read of segment 1 during the pass (store call 14) is mangled -/
+def skipOps : List Op :=
+  [.push (c12Delta 107 1 5), .flush 100, .push (c12Delta 108 2 6), .flush 100, .push (c12Delta 109 3 7), .flush 100]
+def skipOracle : Oracle := fun n => if n = 14 then .readCorrupt else .ok
+def skipCfg : CompactCfg := { target := 1000, minSegs := 2, maxPer := 5, cutoff := 0 }
+
+/-- **delete-selected-instead-of-removed counterexample** (seed C12-compaction-deletes-skipped-
+    segment-files): segment 1 is skipped by the pass (its read was mangled) and stays listed;
+    the current tree keeps its object, the variant deletes it: the pass returns Ok, the manifest
+    references a missing object, recovery fails, a confirmed update is gone. -/
+theorem delete_selected_counterexample :
+    (compact skipOracle skipCfg 100 (run (fun _ => .ok) (Sys.init [] 1) skipOps).w).2 = .compacted [0, 2] 3 2 0 ∧
+    refsComplete (compact skipOracle skipCfg 100 (run (fun _ => .ok) (Sys.init [] 1) skipOps).w).1.store = true ∧
+    OkAnd (recover (compact skipOracle skipCfg 100 (run (fun _ => .ok) (Sys.init [] 1) skipOps).w).1.store 1)
+      (fun r => Absorbed (c12Delta 108 2 6) (foldState r.updates)) ∧
+    refsComplete (compactDeleteSelected skipOracle skipCfg 100 (run (fun _ => .ok) (Sys.init [] 1) skipOps).w).1.store = false ∧
+    ¬ OkAnd (recover (compactDeleteSelected skipOracle skipCfg 100 (run (fun _ => .ok) (Sys.init [] 1) skipOps).w).1.store 1)
+      (fun _ => True) := by
   decide
 
 /-! ## non-vacuity -/
